@@ -386,6 +386,21 @@ func init() {
 		w.barrier(p)
 		return "ok"
 	})
+	// pipe tick p=<i> <seconds>: that much time passes for the periodic sweep of the transport table (its "last sweep"
+	// instant is moved into the past). Entries live an hour, transactions seconds: within a case nothing may expire.
+	vReg("pipe tick", func(a []string) string {
+		if vW == nil {
+			return "not-run"
+		}
+		m := kv(a)
+		i, _ := strconv.Atoi(m["p"])
+		secs, _ := strconv.ParseInt(a[len(a)-1], 10, 64)
+		mgr := vW.proxies[i].clientTransMgr
+		mgr.Lock()
+		mgr.lastCleanTime -= secs
+		mgr.Unlock()
+		return "ok"
+	})
 	vReg("pipe badd", func(a []string) string {
 		if vW == nil {
 			return "not-run"
